@@ -394,6 +394,72 @@ def is_this_member_(l):
     return b is not None and b.get('k') == 'this'
 
 
+def clause_lazy_build(facts, rep):
+    """'objects of any size / no member is lost': the lazy SAX handler is interpreted on the node model with a node stack
+    that reallocates when it grows (sv/schema_model.py), driven as parseLazyImpl drives it, for objects of 0..40
+    members and arrays of 0..40 elements: the root node read from the stack's base afterwards has exactly the keys
+    and raw values of the text in order, the stack holds the root alone, and no slot of a released block is touched."""
+    from ..schema_model import T, Lazy, tstr
+    from .. import dom_model as dm
+    from ..dom_model import Machine
+    from ..minterp import Unsupported, UndefinedBehaviour
+    tags = {}
+    for en in facts.enums:
+        if en.get('qn', '').endswith('TypeFlag'):
+            for c in en.get('values', []):
+                tags[c['name']] = int(c['v'])
+    nfns, hfns = {}, {}
+    for f in facts.functions:
+        if f.name.startswith('sonic_json::DNode<sonic_json::SimpleAllocator>') or f.name.startswith('sonic_json::DNode<SAlloc>'):
+            nfns.setdefault(f.short, f)
+        if f.cls_qn == 'sonic_json::LazySAXHandler' and ('SAlloc' in f.name or 'SimpleAllocator' in f.name):
+            hfns.setdefault(f.short, f)
+    need = ('StartObject', 'EndObject', 'StartArray', 'EndArray', 'Key', 'Raw')
+    rep.require(all(n in hfns for n in need) and 'kObject' in tags, 'C20: LazySAXHandler functions not all found: %s' % sorted(hfns))
+    for n_ in need:
+        rep.fn(hfns[n_])
+    L = Lazy(facts, hfns, nfns, tags)
+    bad = None
+    cnt = 0
+    try:
+        for kind in ('obj', 'arr'):
+            for n in list(range(0, 41)):
+                t = T('obj', None, [('k%d' % i, T('uint', i)) for i in range(n)]) if kind == 'obj' else T('arr', None, [T('uint', i) for i in range(n)])
+                M = Machine(facts, nfns, tags)
+                try:
+                    st = L.lazy_build(M, t)
+                    cnt += 1
+                    root = st.block.slots[0]
+                    if st.top != 1:
+                        bad = '%s of %d: %d nodes left on the node stack' % (kind, n, st.top)
+                    elif root.kind != kind or root.length != n:
+                        bad = '%s of %d: the root at the stack base is a %s of %d' % (kind, n, root.kind, root.length)
+                    elif n and (root.block is None or root.block.freed):
+                        bad = '%s of %d: the root has no live children block' % (kind, n)
+                    else:
+                        for i in range(n):
+                            if kind == 'obj':
+                                k_, v_ = root.block.slots[2 * i], root.block.slots[2 * i + 1]
+                                if k_.kind != 'str' or k_.val[:k_.length] != 'k%d' % i or v_.kind != 'raw' or v_.val != str(i):
+                                    bad = 'object of %d: member %d is (%s %r, %s %r)' % (n, i, k_.kind, k_.val, v_.kind, v_.val)
+                                    break
+                            else:
+                                v_ = root.block.slots[i]
+                                if v_.kind != 'raw' or v_.val != str(i):
+                                    bad = 'array of %d: element %d is %s %r' % (n, i, v_.kind, v_.val)
+                                    break
+                except UndefinedBehaviour as ux:
+                    bad = '%s of %d: undefined behaviour: %s' % (kind, n, ux)
+                if bad:
+                    break
+            if bad:
+                break
+    except Unsupported as ex:
+        raise AnalysisBroken('C20: the lazy handler cannot be interpreted on the DOM model: %s' % ex)
+    rep.check(bad is None, 'E6.lazy-build', 'sonic_json::LazySAXHandler', 'root built from the lazy events == the members / elements of the text, for %d sizes' % cnt,
+              hfns['EndObject'].loc, bad or '', facts.config)
+
+
 def run(rep, tier):
     configs = [('K1', ('::avx2::',))] if tier == 'quick' else [('K1', ('::avx2::',)), ('K3', ('::sse::',))]
     for cfg, ns in configs:
@@ -426,6 +492,10 @@ def run(rep, tier):
         from . import c14
         c14.clause_c(facts, rep)
         c14.clause_e(facts, rep, ns, min_returns=(6 if cfg == 'K1' else 1))
+    try:
+        clause_lazy_build(get_facts('K1'), rep)
+    except AnalysisBroken as ex:
+        rep.broken.append(str(ex))
     rep.min_instances('E3.decode-buffer', 4)
     rep.trust('clang 14 front end', 'zone analysis and callee summaries of C11', 'contract of parseStringInplace: scans to the first unescaped quote with VEC_LEN-byte block loads')
     rep.assumptions += [
